@@ -67,10 +67,12 @@ def run_family_d(prop, tier, seed, report, scratch):
     outs = []
     digests = []
     # C08: two separate processes must produce the same identifiers (map iteration order, process state)
-    for run_no in range(2 if prop == "C08" else 1):
+    # C08: two processes (same identifiers expected); C07: the default and the link-encrypting codec
+    for run_no in range(2 if prop in ("C08", "C07") else 1):
         outp = os.path.join(scratch, "codec.%d.trace" % run_no)
+        c07codec = "cbor+lk1" if (prop == "C07" and run_no == 1) else "cbor"
         p = run([binpath, "codecrun", "-obligations", obp, "-out", outp, "-only", KINDS[prop], "-conc", str(conc),
-                 "-raw", str(nraw), "-seed", str(seed)], timeout=2400)
+                 "-raw", str(nraw), "-seed", str(seed), "-c07codec", c07codec], timeout=2400)
         if p.returncode != 0:
             if "panic:" in p.stdout and "goroutine" in p.stdout:
                 lib = [f for f in fam_l._lib_frames(p.stdout) if f.startswith("berty.tech/go-ipfs-log")]
@@ -89,7 +91,7 @@ def run_family_d(prop, tier, seed, report, scratch):
                              {"family": "D", "digests": digests, "note": "two processes encoded the same entries to different identifiers"})
     nrec = 0
     samples = []
-    for outp in outs[:1]:
+    for outp in (outs if prop == "C07" else outs[:1]):
         n, viols, bad = validate_traces(specdir, "Trace_Codec", outp, ["H_WellFormed"] + P_OPS[prop] + M_OPS[prop], [], scratch)
         if bad:
             raise Inconclusive(bad)
